@@ -120,6 +120,10 @@ theorem stepA_hs (a a' : A) (op : Op) (r : Option Val) (h : stepA a op = .ok (a'
     · split at h <;> cases h; exact ⟨[], by simp⟩
     · cases h
   case callm n => split at h <;> cases h; exact ⟨[], by simp⟩
+  case tcall n =>
+    split at h
+    · split at h <;> cases h; exact ⟨[], by simp⟩
+    · cases h
   case ret =>
     split at h
     · cases h
@@ -183,6 +187,10 @@ theorem stepA_cells (a a' : A) (op : Op) (r : Option Val) (h : stepA a op = .ok 
     · split at h <;> cases h; exact ⟨[], by simp⟩
     · cases h
   case callm n => split at h <;> cases h; exact ⟨[], by simp⟩
+  case tcall n =>
+    split at h
+    · split at h <;> cases h; exact ⟨_, rfl⟩
+    · cases h
   case ret =>
     split at h
     · cases h
